@@ -1094,8 +1094,11 @@ static bool canResend(ssl_t *ssl)
     }
     else
     {
-#if 0
-        /* Client tests */
+        /* Client tests: resend only on a flight boundary.  In any other
+           state the client is midway through the server's flight; its own
+           last flight cannot be rebuilt from there (sslEncodeResponse has no
+           case for it and the session would end with internal_error), and
+           the server's timer retransmits what is missing. */
         if (ssl->hsState == SSL_HS_SERVER_HELLO)
         {
             canSend = 1;
@@ -1107,13 +1110,19 @@ static bool canResend(ssl_t *ssl)
                 canSend = 1;
             }
         }
-        if (ssl->hsState == SSL_HS_DONE)
+        else
         {
-            canSend = 1; /* Done is set on parse of peer FINISHED */
+            /* In a resumed handshake the client sends the final flight and
+               must repeat it when the server asks again.  After a full
+               handshake the final flight was the server's: a client that is
+               done has nothing to repeat, and answering the server's
+               repeated ChangeCipherSpec/Finished would make the two finished
+               peers retransmit at each other without end. */
+            if (ssl->hsState == SSL_HS_DONE)
+            {
+                canSend = 1; /* Done is set on parse of peer FINISHED */
+            }
         }
-#else
-        canSend = 1;  /* Why wouldnt't it be safe to resend aways when in doubt */
-#endif
     }
     return canSend;
 }
